@@ -513,23 +513,28 @@ func (l *List) Merge(sta funcGen.Stack[Value]) (*List, error) {
 			// their own stack.
 			// These goroutines do not stop iterating if the merged list is not
 			// read to its end, so the lists are stopped here.
-			return stoppable2(recoverProducerPanic(l.iterable(funcGen.NewEmptyStack[Value]())), recoverProducerPanic(otherList.iterable(funcGen.NewEmptyStack[Value]())),
-				func(a, b iterator.Producer[Value]) iterator.Producer[Value] {
-					return iterator.Merge(a, b,
-						func(a, b Value) (bool, error) {
-							st.Push(a)
-							st.Push(b)
-							value, err2 := f.Func(st.CreateFrame(2), nil)
-							if err2 != nil {
-								return false, err2
-							}
-							if less, ok := value.(Bool); ok {
-								return bool(less), nil
-							} else {
-								return false, errors.New("function in merge needs to return a bool, (a<b)")
-							}
-						})
-				})
+			// The goroutines of an iteration that was stopped may still be running
+			// when the merged list is iterated again (e.g. as the inner list of
+			// cross), so the stacks are created for every single iteration.
+			return func(yield iterator.Consumer[Value]) {
+				stoppable2(recoverProducerPanic(l.iterable(funcGen.NewEmptyStack[Value]())), recoverProducerPanic(otherList.iterable(funcGen.NewEmptyStack[Value]())),
+					func(a, b iterator.Producer[Value]) iterator.Producer[Value] {
+						return iterator.Merge(a, b,
+							func(a, b Value) (bool, error) {
+								st.Push(a)
+								st.Push(b)
+								value, err2 := f.Func(st.CreateFrame(2), nil)
+								if err2 != nil {
+									return false, err2
+								}
+								if less, ok := value.(Bool); ok {
+									return bool(less), nil
+								} else {
+									return false, errors.New("function in merge needs to return a bool, (a<b)")
+								}
+							})
+					})(yield)
+			}
 		}), nil
 	} else {
 		return nil, errors.New("first argument in merge needs to be a list")
